@@ -32,8 +32,8 @@ QTY = "symplyphysics.core.symbols.quantities.Quantity"
 
 def check(run: Run) -> None:
     for rid, text in [
-        ("U1", "convert_to returns value.scale_factor / target_unit.scale_factor (monomial value^1 * target^-1, coefficient 1)"),
-        ("U2", "assert_equivalent_dimension(value, ..., target_unit.dimension) dominates the return of convert_to"),
+        ("U1", "convert_to, evaluated on quantity / non-quantity operands, is scale(value) / scale(target) of the operands (a non-quantity wrapped by Quantity(x) unchanged)"),
+        ("U2", "assert_equivalent_dimension(value, ..., target_unit.dimension) has been called on exactly the two operands whenever convert_to / convert_to_si / convert_to_float return - also in a second call with the same dimensions"),
         ("U3", "convert_to_si targets dimension_to_si_unit(value.dimension); convert_to_float targets 1"),
         ("U4", "SI base table total over the seven base dimensions, each mapped to a unit of that dimension with SI value 1; product of table[dim]**n"),
         ("U5", "Celsius: to_kelvin = x + c, from_kelvin = x - c, same c = 273.15; quantity variants route through them"),
